@@ -71,7 +71,9 @@ type c36Row struct {
 
 func c36KeyOf(p int32, off int64) string { return fmt.Sprintf("k%d-%d", p, off) }
 
-func (s c36SegSpec) segKey() string { return c36SegmentKey(c36NS, c36Topic, int(s.P), s.Offs[0], "kfs") }
+func (s c36SegSpec) segKey() string {
+	return c36SegmentKey(c36NS, c36Topic, int(s.P), s.Offs[0], "kfs")
+}
 
 // c36Truth lists the records of the topic's completed segments.
 func c36Truth(set c36Set) []c36Row {
@@ -467,7 +469,13 @@ type c36MemoLister struct {
 	calls int
 }
 
-func (m *c36MemoLister) reset() { m.mu.Lock(); m.have = false; m.segs = nil; m.err = nil; m.mu.Unlock() }
+func (m *c36MemoLister) reset() {
+	m.mu.Lock()
+	m.have = false
+	m.segs = nil
+	m.err = nil
+	m.mu.Unlock()
+}
 
 func (m *c36MemoLister) ListCompleted(ctx context.Context) ([]discovery.SegmentRef, error) {
 	m.mu.Lock()
